@@ -261,12 +261,12 @@ func run(r *eng.Runner) {
 	targets := []string{"/a", "/d/b", "/d/e/c", "/x/y"}
 
 	// ---- single references: kind x referrer x target x name form x loader configuration ----
-	r.Group("references", "c11.case", "every reference kind (12) x referrer location (3 directories) x target (4) x every name form reaching it (rooted, relative, ./, ../ detours) x loader configurations {one loader; two loaders with the target only in the second; target in both (first wins); referrer in the second and target in the first}")
+	r.Group("references", "c11.case", "every reference kind (12) x referrer location (3 directories) x target (4) x every name form reaching it (rooted, relative, ./, ../ detours) x 6 loader configurations {one loader; two loaders with the target only in the second; target in both (first wins); referrer in the second and target in the first; three loaders with the target only in the last; three loaders with the target in the second and third}")
 	for _, k := range ks {
 		for _, ref := range referrers {
 			for _, tg := range targets {
 				for _, form := range nameForms(ref, tg) {
-					for cfg := 0; cfg < 4; cfg++ {
+					for cfg := 0; cfg < 6; cfg++ {
 						m1 := "[L1:" + tg + "]"
 						m2 := "[L2:" + tg + "]"
 						mainSrc := k.src(form)
@@ -282,6 +282,13 @@ func run(r *eng.Runner) {
 							ls = []map[string]string{{ref: mainSrc, tg: k.target(m1)}, {tg: k.target(m2), ref: "SHADOWED-MAIN"}}
 						case 3:
 							ls = []map[string]string{{tg: k.target(m1)}, {ref: mainSrc, tg: k.target(m2)}}
+						case 4: // three loaders, the target only in the last one
+							ls = []map[string]string{{ref: mainSrc, tg + ".bak": "DECOY"}, {"/unrelated": "DECOY"}, {tg: k.target(m2)}}
+							marker = m2
+						case 5: // three loaders, the target in the second and third: the second serves it
+							m3 := "[L3:" + tg + "]"
+							ls = []map[string]string{{ref: mainSrc}, {tg: k.target(m2)}, {tg: k.target(m3), ref: "SHADOWED-MAIN"}}
+							marker = m2
 						}
 						vars := map[string]string{}
 						if k.lazyVar {
@@ -352,6 +359,32 @@ func run(r *eng.Runner) {
 			files := map[string]string{"/main": k1.src("d/mid"), "/d/mid": midFile, "/d/e/leaf": k2.target(leafM)}
 			vars := map[string]string{"name": "d/mid", "name2": "e/leaf"}
 			r.Do(&Case{Loaders: []map[string]string{files, {"/leaf": "WRONG-LEAF-ROOT", "/e/leaf": "WRONG-LEAF", "/mid": "WRONG-MID", "/d/leaf": "WRONG-LEAF-D"}}, Main: "/main", Vars: vars, Want: eng.Q(want), Fetch: []string{"/main", "/d/mid", "/d/e/leaf"}, Label: "chain:" + n1 + ">" + n2})
+		}
+	}
+	// three hops through three directories and back to the root: /main -> d/mid -> e/leaf -> ../../a
+	for _, n1 := range []string{"include", "include-lazy", "ssi-parsed"} {
+		for _, n2 := range []string{"include", "include-lazy", "ssi-parsed", "include-if-exists"} {
+			for _, n3 := range []string{"include", "include-lazy", "ssi-parsed", "ssi", "import"} {
+				k1, k2, k3 := byName[n1], byName[n2], byName[n3]
+				hopSrc := func(k kind, name, varname string) string {
+					if k.lazyVar {
+						return strings.ReplaceAll(k.src(""), "name", varname)
+					}
+					return k.src(name)
+				}
+				rootM := "[root-a]"
+				leafR := "LEAF" + k3.out(rootM)
+				midR := "MID" + strings.Replace(k2.out("\x00"), "\x00ctxv", leafR, 1)
+				want := strings.Replace(k1.out("\x00"), "\x00ctxv", midR, 1)
+				files := map[string]string{
+					"/main":     hopSrc(k1, "d/mid", "name"),
+					"/d/mid":    "MID" + hopSrc(k2, "e/leaf", "name2"),
+					"/d/e/leaf": "LEAF" + hopSrc(k3, "../../a", "name3"),
+					"/a":        k3.target(rootM),
+				}
+				vars := map[string]string{"name": "d/mid", "name2": "e/leaf", "name3": "../../a"}
+				r.Do(&Case{Loaders: []map[string]string{files, {"/d/a": "WRONG-A-IN-D", "/d/e/a": "WRONG-A-IN-E", "/e/leaf": "WRONG"}}, Main: "/main", Vars: vars, Want: eng.Q(want), Fetch: []string{"/main", "/d/mid", "/d/e/leaf", "/a"}, Label: "chain3:" + n1 + ">" + n2 + ">" + n3})
+			}
 		}
 	}
 	// a child in /d extends a base in /, and includes "part" from inside its block: static and lazy must both mean /d/part
